@@ -176,8 +176,8 @@ def rule_lexerr(prog, rep):
     isempty = [c for c in fn.live_calls() if re.search(r"str::<impl str>::is_empty$|str::is_empty$", c.name)]
     pend = [c for c in fn.live_calls() if re.search(r"vec::Vec::<T, A>::push$", c.name) and (arg_path_s(fn, c, 0) or "").endswith(".pending")]
     errs = [c for c in fn.live_calls() if re.search(r"vec::Vec::<T, A>::push$", c.name) and (arg_path_s(fn, c, 0) or "").endswith(".errors")]
-    if len(errs) != 1:
-        raise AnchorError("next_token: expected one errors.push")
+    if not errs:
+        raise AnchorError("next_token: no errors.push")
     if len(isempty) != 1 or len(pend) != 1:
         rep.finding("C02.LEXERR", fn.name, "queue", "next_token does not queue lexer-error data as a pending ERROR token under an is_empty() test (found %d tests, %d pending pushes)" % (len(isempty), len(pend)), fn.loc())
         return
@@ -185,9 +185,48 @@ def rule_lexerr(prog, rep):
     if br is None:
         rep.fail("UNDECIDED rule=C02.LEXERR next_token: is_empty() not branched on")
         return
-    t_empty, t_nonempty, _ = br
+    t_empty, t_nonempty, sw_empty = br
     ap = fn.apath(op_place(isempty[0].args[0]), transparent=False)
-    passed, _ = must_pass(fn, [t_nonempty], [errs[0].block], [pend[0].block])
+    passed = all(must_pass(fn, [t_nonempty], [e.block], [pend[0].block])[0] for e in errs if e.block in fn.reachable_blocks([t_nonempty]))
+    # conservation on the whole Err arm: from the Err edge of the lexer result, every path to the
+    # next iteration / return queues the fragment - except on the `data is empty` edge and on
+    # the `is_limit()` edge (limit errors carry no text: ErrorData::LimitExceeded)
+    nxt = [c for c in fn.live_calls() if re.search(r"Iterator>::next$|Iterator::next$", c.name)]
+    err_edge = None
+    for b in sorted(fn.live_blocks()):
+        info = fn.switch_info(b)
+        if info and info.get("kind") == "enum" and info["adt"].endswith("result::Result") and "Err" in info["edges"] and nxt and re.search(r"call:.*next@%d" % nxt[0].block, norm_path(fn.apath(info["place"]))):
+            err_edge = info["edges"]["Err"]
+    if err_edge is None or len(nxt) != 1:
+        rep.fail("UNDECIDED rule=C02.LEXERR next_token: match on the lexer item not recognised")
+        return
+    exempt = {(sw_empty, t_empty)}
+    isl = [c for c in fn.live_calls() if re.search(r"error::Error::is_limit$", c.name)]
+    for c in isl:
+        b2 = branch_on_call(fn, c)
+        if b2:
+            exempt.add((b2[2], b2[0]))
+    seen, stack = set(), [err_edge]
+    leak = False
+    while stack:
+        b = stack.pop()
+        if b in seen or b == pend[0].block:
+            continue
+        seen.add(b)
+        if b == nxt[0].block or fn.term(b)[0] == "ret":
+            leak = True
+            break
+        for s in fn.succs()[b]:
+            if (b, s) not in exempt:
+                stack.append(s)
+    if leak:
+        rep.finding("C02.LEXERR", fn.name, "dropped-fragment",
+                    "on the Err arm of the lexer result a path reaches the next token without queueing the error's text as a pending ERROR token (and it is neither the empty-data nor the limit-error edge): lexically invalid bytes on that path vanish from the tree", isempty[0].loc())
+    lim = prog.fn(r"^apollo_parser::error::Error::limit$")
+    lim_ok = any(s[0] == "=" and s[2][0] == "agg" and isinstance(s[2][1], list) and s[2][1][1].endswith("ErrorData") and s[2][1][2] == "LimitExceeded"
+                 for b in lim.live_blocks() for s in lim.stmts(b))
+    if not lim_ok:
+        rep.finding("C02.LEXERR", lim.name, "limit-data", "Error::limit no longer builds ErrorData::LimitExceeded (limit errors would carry text that next_token does not queue)", lim.loc())
     # the Err arm dominates
     fs = facts_at(fn, isempty[0].block)
     if not has_fact(fs, "variant", variant="Err"):
